@@ -141,9 +141,9 @@ fn main() {
         }
         summary.insert("A".into(), s);
         all_cases.insert("A".into(), all);
-        // B: prefilter differential (40 pairs per op sequence of the budget)
+        // B: prefilter differential (30 pairs per op sequence of the budget)
         let mut rb = rng.fork(2);
-        let (sh, s, all) = prefilter::run_stream(n * 40, &mut rb);
+        let (sh, s, all) = prefilter::run_stream(n * 30, &mut rb);
         for t in sh {
             shards.push(("B".into(), t));
         }
